@@ -318,6 +318,18 @@ def check_faults(ctx, index):
                 assert 'text:c="2"' in xml
                 storage.write_ods_raw(path, xml.replace('text:c="2"', 'text:c="%s"' % attr).encode("utf-8"))
                 expect_format_error(ctx, {"fault": "space-count", "value": attr}, path, 1, "space-count:%s" % kind_of(attr))
+        # a broken count on the last row element, which holds only empty cells or no cell at all (where the filler rows of
+        # spreadsheet applications sit): broken all the same
+        for attr in ("0", "-1", "-0", " 0 ", "x", "1.5", ""):
+            xml = storage.ods_content([[["a"], [""]]], ())
+            k = xml.rindex("<table:table-row")
+            close = xml.index(">", k)
+            with_cells = xml[:close] + ' table:number-rows-repeated="%s"' % attr + xml[close:]
+            end = xml.index("</table:table-row>", k) + len("</table:table-row>")
+            without_cells = xml[:k] + '<table:table-row table:number-rows-repeated="%s"/>' % attr + xml[end:]
+            for shape, text in (("empty-cells", with_cells), ("no-cells", without_cells)):
+                storage.write_ods_raw(path, text.encode("utf-8"))
+                expect_format_error(ctx, {"fault": "row-repeat-count-on-last-empty-row", "value": attr, "row": shape}, path, 1, "row-repeat-count-on-last-empty-row:%s" % kind_of(attr.strip() or ""))
     if os.path.exists(path):
         os.remove(path)
 
